@@ -10,7 +10,7 @@ use crate::common::par;
 use crate::common::robots::*;
 use crate::common::stack::*;
 use rs_opw_kinematics::constraints::Constraints;
-use rs_opw_kinematics::kinematic_traits::{Joints, Kinematics, CONSTRAINT_CENTERED};
+use rs_opw_kinematics::kinematic_traits::{Joints, CONSTRAINT_CENTERED};
 use rs_opw_kinematics::parameters::opw_kinematics::Parameters;
 use serde_json::{json, Value};
 use std::f64::consts::PI;
